@@ -6,16 +6,13 @@ is executed on the two-partition machine from every initial halo state and
 must reproduce the global serial run with no dirty read and no stale claim.
 The same code WITHOUT its halo exchanges must be caught (the oracles are not
 vacuous).  The text is produced by this module, not by PSyclone."""
-import itertools
-
-from mc.lfring import core, execpsy, gen, kernels, ring
+from mc.lfring import core, gen, kernels
 
 
 def handwritten(spec, exchanges=True):
     fields = sorted(spec["fields"])
     extents = []
     lines = []
-    decl = []
     add = lines.append
     stmaps = []
     for kidx, kern in enumerate(spec["kernels"]):
